@@ -15,8 +15,23 @@ package executor
 //@   ensures result#1 == nil ==> result != nil && fresh(result) && result.interp != nil
 //@   ensures !exitOK(result#1)
 
+// ---- C09: the environment list handed to the interpreter. envName(p) is the part of a
+// "name=value" pair before the first '=' (the whole string if there is none).
+//@ pred envName(p string) := strIndex(p, "=") >= 0 ? substr(p, 0, strIndex(p, "=")) : p
 //@ func mergeEnv
+//@   ghostlocal kept int
 //@   nomod
+//@   ensures #C09.kept-prefix 0 <= kept && kept <= len(result)
+//@   ensures #C09.no-overridden-name-from-parent forall j int :: 0 <= j && j < kept ==> !(envName(result[j]) in overrides) && (exists i int :: 0 <= i && i < len(base) && result[j] == base[i])
+//@   ensures #C09.unoverridden-names-pass-through forall i int :: 0 <= i && i < len(base) && !(envName(base[i]) in overrides) ==> (exists j int :: 0 <= j && j < kept && result[j] == base[i])
+//@   ensures #C09.overrides-present forall k string :: (k in overrides) ==> (exists j int :: kept <= j && j < len(result) && result[j] == envPair(k, overrides[k]))
+//@   ensures #C09.only-overrides-after forall j int :: kept <= j && j < len(result) ==> (exists k string :: (k in overrides) && result[j] == envPair(k, overrides[k]))
+//@   loop 1 "range base"
+//@     invariant #same len(base) == len(base0) && overrides == overrides0
+//@     invariant #C09.kept forall j int :: 0 <= j && j < len(env) ==> !(envName(env[j]) in overrides) && (exists i int :: 0 <= i && i <= rangeindex && env[j] == base[i])
+//@     invariant #C09.pass forall i int :: 0 <= i && i <= rangeindex && !(envName(base[i]) in overrides) ==> (exists j int :: 0 <= j && j < len(env) && env[j] == base[i])
+//@   callsite ConvertEnv
+//@     ghost kept = len(env)
 
 //@ func (*DefaultExecutor).Execute
 //@   ghostlocal tctx context.Context
@@ -25,6 +40,8 @@ package executor
 //@   ensures e.interp == old(e.interp)
 //@   ensures #C09.dir-fallback runN == old(runN) + 1 && old(job.Dir) == "" ==> job.Dir == old(e.dir)
 //@   ensures #C09.dir-kept old(job.Dir) != "" ==> job.Dir == old(job.Dir)
+//@   callsite mergeEnv
+//@     requires #C09.job-env-over-process-env arg0 == e.env
 //@   callsite Parse
 //@     requires #C10.render-before-parse calls(RenderString) == 1
 //@   callsite WithTimeout
